@@ -470,7 +470,15 @@ func init() {
 		}
 		sa.Merge(sb)
 		oa, ob := observeGraph(&astisub.Subtitles{Regions: sa.Regions, Styles: sa.Styles}), observeGraph(&astisub.Subtitles{Regions: sb.Regions, Styles: sb.Styles})
-		return encMItems(observe(sa.Items, ids)) + " " + encMItems(observe(sb.Items, ids)) + " " + oa.enc() + " " + ob.enc()
+		out := encMItems(observe(sa.Items, ids)) + " " + encMItems(observe(sb.Items, ids)) + " " + oa.enc() + " " + ob.enc()
+		// a second merge into the same receiver must still leave the first argument alone (no shared maps)
+		sc := astisub.NewSubtitles()
+		sc.Regions["zz"] = &astisub.Region{ID: "zz"}
+		sc.Styles["zz"] = &astisub.Style{ID: "zz"}
+		sc.Items = append(sc.Items, &astisub.Item{StartAt: 1, EndAt: 2})
+		sa.Merge(sc)
+		ob2 := observeGraph(&astisub.Subtitles{Regions: sb.Regions, Styles: sb.Styles})
+		return out + " " + encMItems(observe(sb.Items, ids)) + " " + ob2.enc()
 	}, gen: func(c *ctx) {
 		r := newRng(c.seed, "ops.merge")
 		nr := 20000
